@@ -35,6 +35,12 @@ FIELD_PROPS = {
         "cache": ["C06", "C11"],
     },
     "lay": {},
+    "blk": {
+        "block-events": ["C09"],
+        "hyb-ret": ["C01", "C17", "C12"],
+        "hyb-mem": ["C12", "C01"],
+        "hyb-disk": ["C12", "C15"],
+    },
     "hyb": {
         "ret": ["C01", "C17", "C12"],
         "mem": ["C12", "C01"],
@@ -463,9 +469,11 @@ PROPS.update({
         "monitor_props": ["C01"],
         "campaigns": {
             "quick": [{"name": "hyb-random", "args": ["cases=250", "maxops=25"]},
-                      {"name": "hyb-big", "args": ["cases=80", "maxops=25", "big=1"]}],
+                      {"name": "hyb-big", "args": ["cases=80", "maxops=25", "big=1"]},
+                      {"name": "blk-overload", "domain": "blk", "args": ["cases=80", "maxops=60", "overload=1"]}],
             "thorough": [{"name": "hyb-random", "args": ["cases=6000", "maxops=40"]},
-                         {"name": "hyb-big", "args": ["cases=2000", "maxops=40", "big=1"]}],
+                         {"name": "hyb-big", "args": ["cases=2000", "maxops=40", "big=1"]},
+                         {"name": "blk-overload", "domain": "blk", "args": ["cases=2000", "maxops=80", "overload=1"]}],
         },
         "nontrivial": r"ret=v:\d+:\d+:(disk|memory)",
         "rule": HYB_RULE + "non-trivial = at least one lookup that hit; distinct = distinct (cfg, op sequence)",
@@ -578,5 +586,54 @@ CLAIMS.update({
                     "by correspondence at engine level only, reuse of blocks after reclaim is C09's",
             "technique": "Lean 4 proof (refinement of the splitter model to a cursor specification + scanner-on-chain theorem) + "
                          "trace-validating correspondence on the real Splitter"},
+})
+PROPS.update({
+    "C09": {
+        "domain": "blk",
+        "proof_module": "FoyerProofs.C09",
+        "theorems": ["Foyer.Rcl.run_inv", "Foyer.Rcl.step_inv", "Foyer.Rcl.block_in_one_state", "Foyer.Rcl.writers_exclusive",
+                     "Foyer.Rcl.handed_block_unindexed", "Foyer.Rcl.reclaim_in_fill_order", "Foyer.Rcl.waiting_writer_is_served",
+                     "Foyer.Rcl.reclaim_serves_waiter"],
+        "monitor_props": ["C09"],
+        "campaigns": {
+            "quick": [{"name": "blk-overload", "args": ["cases=250", "maxops=60", "overload=1", "watchdog=30"]},
+                      {"name": "blk-overload-nodel", "args": ["cases=100", "maxops=60", "overload=1", "nodel=1", "watchdog=30"]}],
+            "thorough": [{"name": "blk-overload", "args": ["cases=6000", "maxops=100", "overload=1", "watchdog=60"]},
+                         {"name": "blk-overload-nodel", "args": ["cases=3000", "maxops=100", "overload=1", "nodel=1", "watchdog=60"]}],
+        },
+        "nontrivial": r"bev=\S*pick:",
+        "rule": "the real HybridCache / block engine on a 4-8 block device (16 KiB blocks: about 3 entries per block) under "
+                "sustained write-on-insertion load of several device capacities: mixed entry sizes up to the per-entry maximum, "
+                "overwrites, removes, storage-writer inserts, hold/unhold of the flusher (batches spanning more blocks than the "
+                "device has), gated device writes released batch by batch, close+reopen; flushers 1-3, reclaimers 1-2, clean-block "
+                "threshold 1-2, only configurations the engine accepts without warning; the block manager's own transitions "
+                "(verif hook: take / wait / finish / pick / reclaimed with the set sizes) are replayed on the model, the device "
+                "write log and per-key loads feed the C09 monitors; a watchdog reports stalled wait()/close(); non-trivial = at "
+                "least one reclaim; distinct = distinct (cfg, op sequence)",
+        "trusted_base": TB_COMMON + ["verif hook `verif_events` in foyer-storage/src/engine/block/manager.rs (records under the "
+                                     "manager's state lock; feature `verif`)"],
+        "assumptions": [
+            "event level: one model event per acquisition of the block manager's state lock; the flusher's and reclaimer's IO "
+            "between events is not modelled (the byte layout is C07's, the key-level effect C01's hybrid model, which the same "
+            "traces are also validated against)",
+            "FIFO picker only in the model; the invalid-ratio picker (which acts after deletes) is exercised but its choice is "
+            "not predicted: the oldest-first monitor is switched off after the first remove of a run",
+            "liveness is proved as 'a waiting writer always has a running reclaim or nothing is evictable'; that windows being "
+            "written eventually finish is exercised by the watchdog, not proved; reinsertion filters are not exercised (see D11)",
+        ],
+    },
+})
+CLAIMS.update({
+    "C09": {"text": "Lean 4 theorems about the event-level model of the block manager, for every interleaving of flusher and "
+                    "reclaimer events: every block is in exactly one of clean / writing / evictable / reclaiming (never handed "
+                    "to two writers, never reclaimed while written); a block a writer receives has no indexed entry; blocks are "
+                    "picked for reclaim in the order they were filled; a waiting writer always has a running reclaim that will "
+                    "serve it first, or nothing is evictable. Tied to /repo by replaying the real block manager's transitions "
+                    "(verif hook) under sustained overload on the model and by monitors on the device write log and per-key loads",
+            "note": "trusted: Lean kernel; axioms propext/Classical.choice/Quot.sound; harness + sim io engine + driver + the "
+                    "event-log hook; PARTIAL: reinsertion is not exercised or modelled (known finding D11); eventual completion "
+                    "of writes is tested by a watchdog, not proved",
+            "technique": "Lean 4 proof (invariant of the block-manager event system over all event sequences) + trace-validating "
+                         "correspondence on the manager's own event log"},
 })
 NOT_CLAIMED = {}
